@@ -235,6 +235,9 @@ func (r *vfResult) Floor(key string, minimum int64) {
 func (r *vfResult) Finish(t *testing.T) {
 	t.Helper()
 	r.mu.Lock()
+	if len(r.Samples) == 0 {
+		r.Inconclusive = append(r.Inconclusive, "the run recorded no sample case")
+	}
 	r.DistinctN = len(r.Distinct)
 	r.DistinctSets = map[string]int{}
 	r.SetValues = map[string][]string{}
